@@ -21,7 +21,7 @@ package server
 //@ func (*server).deliverMessage trusted
 //@ requires srv != nil && msg != nil
 //@ modifies heap, ghost(srv.$fanout), ghost(srv.$fanMsg), ghost(srv.$fanSrc), ghost(srv.$fanTopic), ghost(srv.$fanMatch)
-//@ preserves all(server.*), all(Hooks.*), all(gmqtt.Message.*), all(WillMsgRequest.*)
+//@ preserves all(server.*), all(Hooks.*), all(gmqtt.Message.*), all(WillMsgRequest.*), all(gmqtt.Session.*), all(client.*), all(ClientOptions.*), all(packets.Disconnect.*), all(packets.Properties.*), allcells(uint32), allmaps(string, *willMsg), allcells(*server), allcells(*willMsg), allcells(*gmqtt.Message), allcells(string), allcells(bool)
 //@ ensures srv.$fanout == old(srv.$fanout) + 1 && srv.$fanMsg == msg && srv.$fanSrc == srcClientID && srv.$fanTopic == options.TopicName && srv.$fanMatch == int(options.MatchType)
 
 // OnWillPublish: plugin code; it may replace, edit or drop (nil) the message of the request and set the iteration
@@ -51,7 +51,7 @@ package server
 //@ let R = srv.retainedDB
 //@ requires [C08] srv != nil && msg != nil && srv.retainedDB != nil
 //@ modifies heap, ghost(srv.$fanout), ghost(srv.$fanMsg), ghost(srv.$fanSrc), ghost(srv.$fanTopic), ghost(srv.$fanMatch), ghost(H.$wp), ghost(H.$wpMsg), ghost(H.$wpd), ghost(H.$wpdMsg), ghost(R.$msg), ghost(R.$ops)
-//@ preserves all(server.*), all(Hooks.*)
+//@ preserves all(server.*), all(Hooks.*), all(gmqtt.Session.*), all(client.*), all(ClientOptions.*), all(packets.Disconnect.*), all(packets.Properties.*), allcells(uint32), allmaps(string, *willMsg), allcells(*server), allcells(*willMsg), allcells(*gmqtt.Message), allcells(string), allcells(bool)
 //@ ensures [C14] old(H.OnWillPublish) != nil ==> H.$wp == old(H.$wp) + 1
 //@ ensures [C14 C08] old(H.OnWillPublish) != nil && H.$wpMsg == nil ==> srv.$fanout == old(srv.$fanout) && R.$ops == old(R.$ops) && H.$wpd == old(H.$wpd)
 //@ ensures [C14 C08] old(H.OnWillPublish) != nil && H.$wpMsg != nil ==> srv.$fanout == old(srv.$fanout) + 1 && srv.$fanMsg == H.$wpMsg && srv.$fanSrc == clientID
@@ -97,3 +97,67 @@ package server
 //@ ensures [C08] result != nil ==> client.cleanWillFlag == old(client.cleanWillFlag) && client.disconnect == old(client.disconnect) && S.$expSets == old(S.$expSets)
 //@ ensures [C05] result == nil && client.version == 5 && dis.Properties.SessionExpiryInterval != nil && *dis.Properties.SessionExpiryInterval != 0 ==> S.$expSets == old(S.$expSets) + 1 && S.$lastExpID == client.opts.ClientID && S.$lastExp == *dis.Properties.SessionExpiryInterval
 //@ ensures [C05] client.version != 5 || dis.Properties.SessionExpiryInterval == nil || *dis.Properties.SessionExpiryInterval == 0 ==> S.$expSets == old(S.$expSets)
+
+// sessionTerminatedLocked ends a session: store entries removed, OnSessionTerminated told, statistics updated.
+// (Its own contract is with C05; here only that it is a counted step that leaves the will bookkeeping alone.)
+//@ func (*server).sessionTerminatedLocked
+//@ props C05
+//@ requires [C05] srv != nil && srv.sessionStore != nil && srv.subscriptionsDB != nil && srv.statsManager != nil && srv.clients != nil && srv.offlineClients != nil && srv.queueStore != nil
+//@ modifies heap
+//@ preserves all(server.*), all(Hooks.*), all(client.*), all(ClientOptions.*), all(gmqtt.Session.*), all(gmqtt.Message.*), all(packets.Disconnect.*), all(packets.Properties.*), allcells(uint32)
+
+// unregisterClient — the end of a network connection. With sess the stored session (nil: none), keep = "the
+// session outlives the connection" (not force-removed and expiry != 0, the expiry possibly updated by a v5
+// DISCONNECT) and d = min(will delay, session expiry):
+//   will due (session has a will and no DISCONNECT suppressed it) and (d == 0 or !keep): published now, once;
+//   will due, d != 0 and keep: nothing published now; exactly one pending entry and one timer goroutine, timer = d s;
+//   no will due: nothing published, nothing pending.
+//   keep: the client id moves from the online to the offline table with deadline now + expiry and the session is
+//   not terminated; otherwise the session is terminated (exactly once).
+//@ spec func dueWill(c *client, s *gmqtt.Session, suppressed bool) bool = s != nil && !suppressed && s.Will != nil
+//@ spec func willDelay(s *gmqtt.Session) uint32 = s.ExpiryInterval <= s.WillDelayInterval ? s.ExpiryInterval : s.WillDelayInterval
+
+//@ func (*server).unregisterClient
+//@ props C08 C05
+//@ let id = client.opts.ClientID
+//@ let sup = client.cleanWillFlag
+//@ requires [C08] srv != nil && client != nil && client.opts != nil && client.rwc != nil && srv.sessionStore != nil && srv.retainedDB != nil && srv.subscriptionsDB != nil && srv.statsManager != nil
+//@ requires [C08] srv.clients != nil && srv.offlineClients != nil && srv.willMessage != nil && srv.queueStore != nil
+//@ requires [C08] client.version == 5 && client.disconnect != nil ==> client.disconnect.Properties != nil
+//@ modifies heap
+//@ preserves all(server.*), all(Hooks.*), all(client.*), all(ClientOptions.*)
+//@ ensures [C08] sess == nil ==> called(server.sendWillLocked#1) == 0 && spawned() == 0
+//@ ensures [C05] storeSession == (sess != nil && client.forceRemoveSession != 1 && sess.ExpiryInterval != 0)
+//@ ensures [C05] sess != nil && client.forceRemoveSession != 1 && client.version == 5 && client.disconnect != nil && client.disconnect.Properties.SessionExpiryInterval != nil ==> sess.ExpiryInterval == *client.disconnect.Properties.SessionExpiryInterval
+//@ ensures [C08] dueWill(client, sess, sup) && (willDelay(sess) == 0 || !storeSession) ==> called(server.sendWillLocked#1) == 1 && spawned() == 0
+//@ ensures [C08] dueWill(client, sess, sup) && willDelay(sess) != 0 && storeSession ==> called(server.sendWillLocked#1) == 0 && spawned() == 1 && has(srv.willMessage, id) && srv.willMessage[id] != nil && srv.willMessage[id].msg != nil && srv.willMessage[id].msg.Topic == sess.Will.Topic && srv.willMessage[id].msg.QoS == sess.Will.QoS && srv.willMessage[id].msg.Retained == sess.Will.Retained
+//@ ensures [C08] !dueWill(client, sess, sup) ==> called(server.sendWillLocked#1) == 0 && spawned() == 0
+//@ ensures [C05] storeSession ==> has(srv.offlineClients, id) && srv.offlineClients[id] == now + int(sess.ExpiryInterval) * 1000000000 && !has(srv.clients, id) && called(server.sessionTerminatedLocked#1) == 0
+//@ ensures [C05] !storeSession ==> called(server.sessionTerminatedLocked#1) == 1
+//@ call server.sendWillLocked#1 assert [C08] clientID == id && msg != nil && msg.Topic == sess.Will.Topic && msg.QoS == sess.Will.QoS && msg.Retained == sess.Will.Retained && len(msg.Payload) == len(sess.Will.Payload)
+//@ call NewTimer#1 assert [C08] d == int(willDelay(sess)) * 1000000000
+//@ call server.sessionTerminatedLocked#1 assert [C05] clientID == id
+
+// The goroutine of a delayed will: it waits for the timer or for a decision (signal), removes the pending entry in
+// every case, and publishes the will at most once — exactly when the timer fired or the decision was "send".
+//@ func (*server).unregisterClient$1
+//@ props C08
+//@ requires [C08] srv != nil && wm != nil && t != nil && msg != nil && srv.willMessage != nil && srv.retainedDB != nil
+//@ modifies heap
+//@ ensures [C08] !has(srv.willMessage, clientID)
+//@ ensures [C08] called(server.sendWillLocked#1) == (send ? 1 : 0)
+//@ call server.sendWillLocked#1 assert [C08] send && !has(srv.willMessage, clientID)
+
+// lockDuplicatedID returns with srv.mu held. If a session exists for the client id, no connection is attached to
+// that id any more when it returns (an online duplicate was closed and waited for): at most one connection per id.
+//@ func (*server).lockDuplicatedID
+//@ props C05
+//@ requires [C05] srv != nil && c != nil && c.opts != nil && c.rwc != nil && srv.sessionStore != nil && srv.clients != nil
+//@ monitor srv.mu protects map(srv.clients), ghost(srv.sessionStore.$has) with invariant srv.clients != nil
+//@ modifies heap
+//@ preserves all(server.*), all(client.*), all(ClientOptions.*)
+//@ abstract call client).setError pure
+//@ abstract call client).Close pure
+//@ ensures [C05] err == nil && oldSession != nil ==> oldSession.ClientID == c.opts.ClientID && srv.clients[c.opts.ClientID] == nil
+//@ ensures [C05] err != nil ==> oldSession == nil
+//@ loop 1 invariant srv.clients != nil && c.opts != nil && c.rwc != nil && srv.sessionStore != nil
